@@ -142,7 +142,14 @@ def execute(scn, L):
             continue
 
         if len(acc) != len(wa.ops):
-            out.probe('writer_rejected_valid_call')
+            # every op left after filtering is well ordered and has valid
+            # arguments (text encodable in its effective codec, JSON-native
+            # metadata): the property quantifies over all of them, so a
+            # writer that refuses one cannot round-trip it
+            bad = [c for c in wa.calls if c['outcome'] == 'raise'][0]
+            out.violate('C01.writer-rejects-valid-call', '%s:%s' % (
+                bad['op'], (bad.get('exc') or {}).get('type')),
+                {'op': wa.ops[bad['i']], 'exc': bad.get('exc')})
 
         pipe.check_calllog_roundtrip(out, 'e2e', m, acc, a.records, a.end,
                                      a.exc_info)
